@@ -119,6 +119,10 @@ def build_tree_subject(r):
             n.extra = [i, "x"]
         if deco >= 2:
             t.annotations.add_bound_attribute("label", annotation_name="seedlabel", owner_instance=t._seed_node)
+        if len(ns._taxa) > nl:
+            # a taxon of the namespace that is on no node but referenced by the tree: an attribute and an annotation value
+            t.reference_taxon = ns._taxa[-1]
+            t.annotations.add_new("reference", ns._taxa[-1])
     if r.get("enc"):
         t.encode_bipartitions(suppress_unifurcations=False, collapse_unrooted_basal_bifurcation=False)
         t.bipartition_edge_map
@@ -556,6 +560,16 @@ def wiring_errors(kind, x):
         for t in x._taxon_sequence_map:
             if id(t) not in nsids:
                 errs.append("row taxon %r is not a member of the copy's namespace" % (t._label,))
+    if kind in ("tree", "treelist", "matrix"):
+        # whatever the object refers to (attributes, annotation values, ...): a Taxon it can reach is a member of ITS namespace --
+        # a copy never carries a private duplicate of a taxon
+        from dendropy.datamodel.taxonmodel import Taxon
+        nsids = set(map(id, x._taxon_namespace._taxa))
+        skip = ("extraction_source",)
+        for o in C.reach(x, skip_attrs=skip).values():
+            if isinstance(o, Taxon) and id(o) not in nsids:
+                errs.append("a Taxon labelled %r reachable from the object is not a member of its namespace" % (o._label,))
+                break
     for h in holders(kind, x, True):
         if not C.ann_target_ok(h) and not (h is x and h.__dict__["_annotations"].target.__dict__ is x.__dict__):
             errs.append("annotation set of %s targets another object" % C.describe(h))
@@ -566,7 +580,8 @@ def make_subject(recipe):
     x = BUILDERS[recipe["kind"]](recipe)
     via = recipe.get("via")
     if via:
-        x = ROUTES[recipe["kind"]][via][1](x)
+        for step in via.split("+"):       # "clone1+deepcopy": a scoped copy, then a deep copy of that
+            x = ROUTES[recipe["kind"]][step][1](x)
     return x
 
 
@@ -827,19 +842,19 @@ def jobs_chains(tier):
     tshapes = [((), ((), ())), (((), ()), ((), ()))] if tier == "quick" else [((), ((), ())), (((), ()), ((), ())), ((), (), ()), (((),), ())]
     for s in tshapes:
         for deco, enc in ((2, 0), (2, 1), (0, 1)):
-            for via in ("ctor", "clone1", "deepcopy", "copy", "ctor_newns", "extract_noattr"):
+            for via in ("ctor", "clone1", "deepcopy", "copy", "ctor_newns", "extract_noattr", "clone1+deepcopy"):
                 r = {"kind": "tree", "shape": s, "len": "dyadic", "rooted": True, "deco": deco, "enc": enc, "nsx": 1, "via": via}
                 for route in ROUTES["tree"]:
                     out.append(("chains", {"recipe": r, "route": route}, True))
     for L in ([((), ()), ((), ((), ()))],):
         for deco in (2, 0):
-            for via in ("ctor", "clone1", "deepcopy", "copy", "ctor_newns"):
+            for via in ("ctor", "clone1", "deepcopy", "copy", "ctor_newns", "clone1+deepcopy"):
                 r = {"kind": "treelist", "shapes": L, "deco": deco, "enc": 1, "nsx": 0, "via": via}
                 for route in ROUTES["treelist"]:
                     out.append(("chains", {"recipe": r, "route": route}, True))
     for tp in ("dna", "standard", "continuous"):
         for deco in (2, 0):
-            for via in ("ctor", "clone1", "deepcopy", "copy", "ctor_newns"):
+            for via in ("ctor", "clone1", "deepcopy", "copy", "ctor_newns", "clone1+deepcopy"):
                 r = {"kind": "matrix", "type": tp, "lens": [3, 3, None], "deco": deco, "nsx": 0, "via": via}
                 for route in ROUTES["matrix"]:
                     out.append(("chains", {"recipe": r, "route": route}, True))
